@@ -12,13 +12,23 @@ namespace AlgoVerif.C14
 
 variable {σ : Type}
 
+/-- an arc into a vertex that is unvisited in `a` -/
+def WhiteArc (g : Graph) (a : Array Bool) (p q : Nat) : Prop := g.HasArc p q ∧ ¬ Vis a q
+
+theorem WhiteArc.mono {g : Graph} {a c : Array Bool} (h : ∀ x, Vis a x → Vis c x) {p q : Nat}
+    (w : WhiteArc g c p q) : WhiteArc g a p q := ⟨w.1, fun hq => w.2 (h q hq)⟩
+
+theorem Reach.of_white {g : Graph} {a : Array Bool} {u v : Nat} (h : Reach (WhiteArc g a) u v) :
+    Reach g.HasArc u v := h.mono (fun _ _ w => w.1)
+
 /-- facts about the `visited` slice between entry (`a`) and return (`a'`) of `traverseDFS(v, …)` -/
 structure StdPost (g : Graph) (v : Nat) (a a' : Array Bool) : Prop where
   size : a'.size = g.n
   grows : ∀ x, Vis a x → Vis a' x
   self : Vis a' v
   cnt : cntF a' < cntF a
-  reach : ∀ x, Vis a' x → ¬ Vis a x → Reach g.HasArc v x
+  /-- every newly visited vertex is reached from `v` along arcs into vertices unvisited at entry -/
+  reach : ∀ x, Vis a' x → ¬ Vis a x → Reach (WhiteArc g a) v x
   closed : ∀ x, Vis a' x → ¬ Vis a x → ∀ y, g.HasArc x y → Vis a' y
 
 /-- the same inside the adjacency loop of `v`, after the arcs `done`, before `rest` -/
@@ -28,7 +38,7 @@ structure StdMid (g : Graph) (v : Nat) (a : Array Bool) (done rest : List Arc) (
   grows : ∀ x, Vis a x → Vis c x
   self : Vis c v
   cnt : cntF c < cntF a
-  reach : ∀ x, Vis c x → ¬ Vis a x → Reach g.HasArc v x
+  reach : ∀ x, Vis c x → ¬ Vis a x → Reach (WhiteArc g a) v x
   closed : ∀ x, Vis c x → ¬ Vis a x → x ≠ v → ∀ y, g.HasArc x y → Vis c y
   done : ∀ x ∈ done, Vis c x.to
 
@@ -102,7 +112,9 @@ theorem dfsLoop_rule (fuel : Nat) (v : Nat) (st : TState σ)
             intro y hy hny
             by_cases hc : Vis cur.visited y
             · exact hs.reach y hc hny
-            · exact Reach.head harc (hstd.reach y hy hc)
+            · have hw : WhiteArc g st.visited v x.to :=
+                ⟨harc, fun h => not_vis_of_false hunv (hs.grows _ h)⟩
+              exact Reach.head hw ((hstd.reach y hy hc).mono (fun _ _ w => w.mono hs.grows))
           closed := by
             intro y hy hny hyv z hz
             by_cases hc : Vis cur.visited y
